@@ -12,6 +12,7 @@ CONSTANTS Family = "clique"
           MaxStored = 5
           MaxLen = 6
           EmitOn = TRUE
+          TwoBranch = FALSE
           TraceLen = 0
 VIEW View
 \* CliqueFixed = FALSE reproduces the two deviations repaired in /repo by the commits 6966a3f and e66d2a4 (then PropC29 is violated in the model)
